@@ -14,11 +14,10 @@ Agreement on the log itself is hashicorp/raft's: the model has ONE log and membe
 * `last_peer_kept`, `voters_never_empty`        the only peer / the last voter is never removed
 * `healthy_call_is_one_attempt`                 in a healthy cluster the redirect/retry loops collapse (what the harness replays)
 * `joiner_synced`, `joiner_has_prior_pins`, `joiner_equals_others`   WaitForSync ready ⇒ every entry before the own addition is applied
-* `removed_peer_cleans`, `restart_keeps_data`, `leave_cleans_regardless`   watchPeers / Shutdown decisions
+* `removed_peer_cleans`, `restart_keeps_data`, `left_peer_cleans`, `failed_leave_keeps_data`   watchPeers / Shutdown decisions
 * `rehomed_first`                               PeerRemove logs its re-pins before RmPeer
 * `gen_*`                                       the guard / ordering facts re-checked on the go/ast skeletons of today's source
-* `allowed_holds_partial`                       every script outcome the model allows meets every clause of the property,
-                                                provided no peer fails to leave; `C17_full_fails`: without that proviso it does not
+* `allowed_holds` (= `C17_full_holds`)          every script outcome the model allows meets every clause of the property
 -/
 namespace CV.C17
 open CV
@@ -230,10 +229,10 @@ example : let log : List Entry := [.boot [0], .pin (pinCid 7), .addVoter 1]
 
 /-! ## a removed peer stops itself and cleans -/
 
-theorem removed_peer_cleans (ps : List Nat) (self : Nat) (f : CFlags) (peersOk : Bool)
+theorem removed_peer_cleans (ps : List Nat) (self : Nat) (f : CFlags) (peersOk rmOk : Bool)
     (hne : ps.contains self = false) (hready : f.ready = true) (hnot : f.shutdown = false) :
     (watchTick (some ps) self f).2 = true ∧
-    (shutdownActs (watchTick (some ps) self f).1 peersOk).2 = [.consShutdown, .clean, .done] := by
+    (shutdownActs (watchTick (some ps) self f).1 peersOk rmOk).2 = [.consShutdown, .clean, .done] := by
   have hw : watchTick (some ps) self f = ({ f with removed := true }, true) := by
     unfold watchTick
     simp only [hne, Bool.false_eq_true, if_false]
@@ -242,17 +241,23 @@ theorem removed_peer_cleans (ps : List Nat) (self : Nat) (f : CFlags) (peersOk :
   unfold shutdownActs
   simp [hready, hnot]
 
-theorem restart_keeps_data (f : CFlags) (peersOk : Bool) (h1 : f.removed = false) (h2 : f.leaveOnShutdown = false) :
-    Act.clean ∉ (shutdownActs f peersOk).2 := by
+theorem restart_keeps_data (f : CFlags) (peersOk rmOk : Bool) (h1 : f.removed = false) (h2 : f.leaveOnShutdown = false) :
+    Act.clean ∉ (shutdownActs f peersOk rmOk).2 := by
   unfold shutdownActs
   split_ifs <;> simp_all
 
-/-- as the code stands: with leave_on_shutdown the data is discarded whether or not `RmPeer(self)` succeeded
-    (the decision does not look at its result) — see `C17_full_fails` -/
-theorem leave_cleans_regardless (f : CFlags) (peersOk : Bool) (h1 : f.leaveOnShutdown = true) (h2 : f.ready = true)
-    (h3 : f.removed = false) (h4 : f.shutdown = false) : Act.clean ∈ (shutdownActs f peersOk).2 := by
+/-- a peer that leaves on shutdown and whose `RmPeer(self)` succeeded discards its data -/
+theorem left_peer_cleans (f : CFlags) (h1 : f.leaveOnShutdown = true) (h2 : f.ready = true)
+    (h3 : f.removed = false) (h4 : f.shutdown = false) :
+    (shutdownActs f true true).2 = [.rmSelf, .consShutdown, .clean, .done] := by
   unfold shutdownActs
   simp [h1, h2, h3, h4]
+
+/-- a peer that could not leave (the last peer, or any `RmPeer` error) keeps its data (fix f1a149d; was finding K34) -/
+theorem failed_leave_keeps_data (f : CFlags) (peersOk : Bool) (h3 : f.removed = false) :
+    Act.clean ∉ (shutdownActs f peersOk false).2 := by
+  unfold shutdownActs
+  split_ifs <;> simp_all
 
 /-! ## re-pins come first -/
 
@@ -329,56 +334,59 @@ theorem gen_watch_peers :
     before "if:!hasMe" "set:c.removed=true" Gen.watchPeers = true ∧
     before "set:c.removed=true" "go:Shutdown" Gen.watchPeers = true := by decide
 
+/-- `RmPeer(self)` is followed by `if err != nil { } else { c.removed = true }`: the flag is set on success only -/
+def leaveBranch (l : List String) : Bool :=
+  match idx "call:RmPeer" l with
+  | some i => l[i + 1]? == some "if:err != nil" && l[i + 2]? == some "else" &&
+              l[i + 3]? == some "set:c.removed=true" && l[i + 4]? == some "end"
+  | none => false
+
 theorem gen_shutdown_order :
     before "if:c.consensus != nil && c.config.LeaveOnShutdown && c.readyB && !c.removed" "call:RmPeer" Gen.clusterShutdown = true ∧
-    before "set:c.removed=true" "call:RmPeer" Gen.clusterShutdown = true ∧
-    before "call:RmPeer" "if:con != nil" Gen.clusterShutdown = true ∧
+    leaveBranch Gen.clusterShutdown = true ∧
+    before "set:c.removed=true" "if:con != nil" Gen.clusterShutdown = true ∧
     before "if:con != nil" "if:c.removed && c.readyB" Gen.clusterShutdown = true ∧
     before "if:c.removed && c.readyB" "call:Clean" Gen.clusterShutdown = true ∧
     guard "!cc.shutdown" "E" Gen.consClean = true ∧ before "if:!cc.shutdown" "call:CleanupRaft" Gen.consClean = true := by decide
 
 /-! ## what the model allows satisfies the property -/
 
-/-- no peer fails to leave (leave_on_shutdown of the only peer is the one way to fail) -/
-def leavesSucceed (ops : List Op) : Bool := ops.all (fun o => !failedLeave o)
-
 /-- the full statement: every case the model allows meets every clause of the property -/
 def C17_full : Prop := ∀ k : Case, allowed k = true → holds k = true
 
-theorem allowed_holds_partial (k : Case) (hl : leavesSucceed k.ops = true) (ha : allowed k = true) :
-    holds k = true := by
+/-- Every script outcome and observation the model admits meets every clause of the property written from its text
+    (scripts of any length, all op kinds, both suites). -/
+theorem allowed_holds (k : Case) (ha : allowed k = true) : holds k = true := by
   unfold allowed at ha
   cases hr : replay (initState k.tier k.repin k.init) k.ops with
   | none => rw [hr] at ha; cases ha
   | some m =>
     rw [hr] at ha
     simp only at ha
-    obtain ⟨R, _, hc⟩ := replay_rel (rel_init k.tier k.repin k.init) hr hl
+    obtain ⟨R, _, hc⟩ := replay_rel (rel_init k.tier k.repin k.init) hr
     have ho := obs_clauses R ha
     unfold holds clauses
     rw [List.all_append, Bool.and_eq_true]
     exact ⟨hc, ho⟩
 
-/-- the witness: one peer, one pin, leave on shutdown (fails: the last peer cannot be removed), restart -/
-def lostPinsetCase : Case :=
+theorem C17_full_holds : C17_full := allowed_holds
+
+/-- regression for the repaired finding K34: one peer, one pin, leave on shutdown (fails: the last peer cannot be
+    removed), restart. `pins` = what the peer reports after the restart. -/
+def leaveLastCase (pins : PinMap) : Case :=
   { tier := .cluster, repin := true, retries := 1, init := [0],
     ops := [.pin 0 (pinCid 1) .ok, .leave 0 .err, .restart 0],
-    obs := { members := [{ id := 0, peers := [0], pins := [], nonvoters := [] }], gone := [] } }
+    obs := { members := [{ id := 0, peers := [0], pins := pins, nonvoters := [] }], gone := [] } }
 
-/-- As the code stands the full statement is false: the only peer, shut down with leave_on_shutdown, fails to leave
-    but discards its Raft data; after the restart it reports an empty pinset (`pinset_kept` fails). -/
-theorem C17_full_fails : ¬ C17_full := by
-  intro h
-  have := h lostPinsetCase (by decide)
-  revert this
-  decide
+/-- the old behaviour (empty pinset after the restart) is neither admitted by the model nor by the property;
+    the repaired behaviour (pinset kept) is admitted by both -/
+example : allowed (leaveLastCase []) = false ∧ holds (leaveLastCase []) = false ∧
+    allowed (leaveLastCase [(pinCid 1).stored]) = true ∧ holds (leaveLastCase [(pinCid 1).stored]) = true := by decide
 
-example : leavesSucceed [.pin 0 (pinCid 1) .ok, .start 1, .add 0 1 .ok, .ready 1 true true true [(pinCid 1).stored],
-    .rm 1 0 .ok] = true := by decide
 def removeLeaderCase : Case :=
   { tier := .cons, repin := true, retries := 1, init := [0],
     ops := [.pin 0 (pinCid 1) .ok, .start 1, .add 0 1 .ok, (.ready 1 true true true [(pinCid 1).stored]), .rm 1 0 .ok],
     obs := { members := [{ id := 1, peers := [1], pins := [(pinCid 1).stored], nonvoters := [] }], gone := [] } }
-example : allowed removeLeaderCase = true ∧ leavesSucceed removeLeaderCase.ops = true := by decide
+example : allowed removeLeaderCase = true ∧ holds removeLeaderCase = true := by decide
 
 end CV.C17
